@@ -474,6 +474,8 @@ class FileDownloader(Resource, object):
                 first = max(0, first)
 
                 if first >= filesize:
+                    # RFC 7233 4.4: tell the client the current length
+                    req.setHeader('content-range', "bytes */%s" % str(filesize))
                     raise WebError('First beyond end of file',
                                    http.REQUESTED_RANGE_NOT_SATISFIABLE)
                 else:
